@@ -156,6 +156,15 @@ CHECKS = {
              "injections, integer and unix start times, realistic dt), a callback raising on the k-th frame for every k, slices and label "
              "subsets, slew times and consolidation.",
         design="3/C16", technique="Coq induction over frames (law-free, Leibniz) + PrimFloat refutation + bitwise time-axis correspondence"),
+    "C19": dict(
+        text="Theorems: the index-based generator yields exactly floor((nchans-fchans)/s)+1 pieces, every piece inside the file and one more "
+             "would not fit; the frequencies handed to the reader for piece i round to channels [i*s, i*s+fchans) for every header frequency "
+             "and resolution of either sign; the two nested while loops of split_array (modelled literally, with fuel that is proved never "
+             "to run out) with shifts equal to the tile sizes produce exactly the row-major grid of tiles; every element lies in exactly the "
+             "tile (y/th, x/tw), which exists; trimming keeps exactly the full-size tiles. Real .fil files whose pixels encode (row, file "
+             "channel) are split and every piece located (count, channels, integrations, frequencies, split_fil files, distribution "
+             "helpers); arrays whose values encode (y, x) are tiled and compared with the model's rectangles for all shifts and trim flags.",
+        design="3/C19", technique="Coq proof (nested-loop invariants with fuel, nat div/mod) + value-encoded file/array correspondence"),
 }
 
 PENDING_REASON = "check not built yet in this session (planned in DESIGN.md section 3); no claim is made for it in this commit"
